@@ -99,3 +99,111 @@ def brief_scenario(o, upto=None):
         elif e["e"] == "tx" and e.get("pos", 0) >= 1:
             ev.append({"e": "tx", "kind": e["kind"], "code": e.get("code"), "conn": e["conn"], "t": e["t"]})
     return {"config": o.get("config"), "term": o.get("term"), "start": o.get("start"), "calls": o.get("calls"), "plan": o.get("plan"), "events": ev[:120]}
+
+
+# ------------------------------------------------------------------------------------------------
+import random
+import codec_common as cc
+
+PROP_OF = {"P07": "C07", "P08": "C08", "P18": "C18", "P19": "C19", "P20": "C20"}
+
+
+def model_check(chk, depth, big=False, configure=False):
+    env = {"CLIENT_DEPTH": depth, "CLIENT_EMIT": "0", "CLIENT_BIG": "1" if big else "0", "CLIENT_CONFIGURE": "1" if configure else "0"}
+    r = vlib.tlc("client/MC_Client.tla", workers=vlib.NCPU, xmx="24g", env=env, timeout=7000)
+    vlib.tlc_must_pass(r, "MC_Client")
+    if r.violated:
+        raise vlib.ToolError("the client specification itself violates %s:\n%s" % (r.violated, r.out[-3000:]))
+    chk.add_tlc("MC_Client: every history of %d calls over %s tokens, max in %s, every terminal outcome, dangling yes/no%s; invariants NoPFlags "
+                "(I-spec => P_C07/08/19/20), MapsAgree, WithinMax, MapIsOpenOnTerminal, OneToOne" % (
+                    depth, "3" if big else "2", "0..3" if big else "0..2", ", configure" if configure else ""), r)
+    return r
+
+
+def model_scenarios(chk, depth, keep_every=1, offset=0, big=False, configure=False):
+    env = {"CLIENT_DEPTH": depth, "CLIENT_EMIT": "1", "CLIENT_BIG": "1" if big else "0", "CLIENT_CONFIGURE": "1" if configure else "0"}
+    r = vlib.tlc("client/MC_Client.tla", workers=vlib.NCPU, xmx="24g", env=env, timeout=7000)
+    vlib.tlc_must_pass(r, "MC_Client (emit)")
+    if r.violated:
+        raise vlib.ToolError("the client specification itself violates %s" % r.violated)
+    sc = cc.parse_cases(r.out)
+    sc.sort(key=lambda s: json.dumps(s, sort_keys=True))
+    if keep_every > 1:
+        sc = [s for i, s in enumerate(sc) if (i + offset) % keep_every == 0]
+    return sc
+
+
+def gen_scenarios(chk, mode, thorough):
+    r = vlib.tlc("client/Gen_Client.tla", workers=1, xmx="8g", env={"GEN_MODE": mode, "GEN_THOROUGH": "1" if thorough else "0", "GEN_BIG": "0"}, timeout=3000)
+    vlib.tlc_must_pass(r, "Gen_Client " + mode)
+    sc = cc.parse_cases(r.out)
+    if len(sc) != r.distinct:
+        raise vlib.ToolError("Gen_Client: %d scenarios printed for %d states" % (len(sc), r.distinct))
+    chk.add_tlc("Gen_Client(%s): one state per generated scenario" % mode, r)
+    return sc
+
+
+def random_walks(seed, count, depth, ops=("begin", "commit", "cancel"), read_card=False, configure=False):
+    rnd = random.Random(seed)
+    out = []
+    for _ in range(count):
+        ntok = rnd.choice([1, 2, 3, 8])
+        toks = [[97 + i] for i in range(ntok)]
+        cfg = {"max": rnd.choice([0, 1, 1, 2, 3]), "pre": digits(rnd.choice([0, 1, 2500, 2500, 10 ** 12 - 1, rnd.randrange(10 ** 6)])),
+               "currency": rnd.choice([752, 826, 978])}
+        calls, plan = [], []
+        allops = list(ops) + (["read_card"] if read_card else []) + (["configure"] if configure else [])
+        for _ in range(rnd.randrange(1, depth + 1)):
+            op = rnd.choice(allops)
+            call = {"op": op, "token": rnd.choice(toks), "amount": []}
+            if op == "commit":
+                call["amount"] = digits(rnd.choice([0, 1, 2499, 2500, 2501, 2 ** 32, 2 ** 64 - 1, rnd.randrange(10 ** 7)]))
+            calls.append(call)
+        for _ in range(depth * 6):
+            k = rnd.random()
+            if k < 0.62:
+                p = {"o": "ok", "status": {"amount": digits(rnd.randrange(10 ** 6)), "trace": digits(rnd.randrange(10 ** 6)),
+                                            "date": digits(rnd.randrange(1232)), "time": digits(rnd.randrange(235960)),
+                                            "terminal_id": digits(rnd.randrange(10 ** 8))}}
+                if rnd.random() < 0.2:
+                    p["status"].pop(rnd.choice(list(p["status"])))
+                if rnd.random() < 0.1:
+                    p["early_status"] = True
+            elif k < 0.78:
+                p = {"o": "abort", "code": rnd.choice([rnd.randrange(256), 160, 108, 252, 184, 183])}
+            elif k < 0.84:
+                p = {"o": "noreceipt", "open": rnd.random() < 0.5}
+            elif k < 0.89:
+                p = {"o": "ok_nostatus"}
+            elif k < 0.95:
+                p = {"o": "pending", "receipt": rnd.choice([65535, None, 77, 5]), "code": rnd.choice([184, 0, 183])}
+            else:
+                p = {"o": "status", "uid": [rnd.randrange(256) for _ in range(rnd.randrange(0, 12))], "subs": []}
+            if rnd.random() < 0.25:
+                p["inter"] = rnd.randrange(1, 3)
+            plan.append(p)
+        out.append({"config": cfg, "term": {"dangling": rnd.choice([[], [], [77]]), "next_receipt": rnd.choice([1, 1, 9998])},
+                    "calls": calls, "plan": {"exchanges": plan}})
+    return out
+
+
+def report(chk, outs, iflags, pflags, claim, what=None):
+    """claim: the P-flag prefixes this property owns (e.g. {"P07"}); 'abnormal' is claimed when "abnormal" in claim."""
+    psc = set()
+    for sci, ev, flags in pflags:
+        o = outs[sci]
+        for f in flags:
+            pre = f.split("-")[0]
+            if pre in claim or (f.startswith("abnormal") and "abnormal" in claim):
+                psc.add(sci)
+                call = next((e for e in reversed(o["trace"][:10 ** 6]) if e["e"] == "call"), {})
+                ops = [c["op"] for c in o.get("calls", [])]
+                chk.violation("%s:%s" % ("/".join(sorted(set(ops))), f),
+                              "%s in scenario %s" % ((what or {}).get(f, f), json.dumps({"calls": o.get("calls")})[:300]), brief_scenario(o))
+            elif pre in PROP_OF or f.startswith("abnormal"):
+                psc.add(sci)
+                chk.notes.append("scenario flagged for another property (%s): %s" % (f, json.dumps(o.get("calls"))[:160]))
+    for sci, ev, kind, detail in iflags:
+        if sci not in psc:
+            o = outs[sci]
+            chk.drift("L4-client", "%s at event %d" % (kind, ev), {"detail": detail, "calls": o.get("calls"), "plan": str(o.get("plan"))[:400]})
